@@ -151,6 +151,25 @@ static inline _Bool i_hdr(const CL *L) { return (L->head == NULL) == (L->tail ==
 
 /* field-write hook: every store to Node::counter goes through this (extract/units.py field_hooks);
  * marking a node removed stamps it with the ghost clock */
+/* C03, critical-section discipline (obligations with -DOB_CS): the operations that change the list (append, prepend,
+ * insert, remove) and ownsHandle read the liveness mark of a node - the decision variable for "is this callback
+ * still in the list" - only with the list mutex held.  Their whole effect on shared state then happens inside ONE
+ * critical section of the one mutex, which is their linearisation point: the sequential contracts proved for C01 / C02
+ * describe the state at that point, whatever other threads did before.  ghost g_cs_reads counts reads made without
+ * the mutex; g_cs_mutex is the list's mutex (bound by the obligation's requires). */
+extern int g_cs_reads; extern Mutex *g_cs_mutex;
+#ifdef OB_CS
+static inline unsigned int node_get_counter(unsigned int *p) { if (g_cs_mutex->depth == 0) g_cs_reads++; return *p; }
+#define NODE_GET_counter(p) node_get_counter(p)
+#define CS_REQ __CPROVER_requires(__CPROVER_pointer_equals(g_cs_mutex, &self->mutex) && g_cs_reads == 0)
+#define CS_FRAME g_cs_reads
+#define CS_POST __CPROVER_ensures(g_cs_reads == 0)      /* no liveness test was made outside the critical section */
+#else
+#define NODE_GET_counter(p) (*(p))
+#define CS_REQ
+#define CS_FRAME
+#define CS_POST
+#endif
 #define NODE_SET_counter(n, v) ((n)->counter = (v), ((n)->counter == 0 ? ((n)->remStamp = ++g_clock) : 0ull), (n)->counter)
 
 /* ================================================================== trusted environment: allocation
@@ -250,6 +269,7 @@ static inline void exc_maybe(void) { if (!g_exc && nondet_bool()) g_exc = 1; }
   __CPROVER_requires((RM_LIVE && RM_N->next != NULL) ==> (I_BWD(self, RM_N->next) && I_STAMP(RM_N->next))) \
   __CPROVER_requires(W1(RM_N != NULL ==> I_STAMP(gW))) \
   __CPROVER_requires(W1(RM_LIVE ==> W_INST(self, gW, RM_N, RM_N->previous, NUL))) \
+  CS_REQ __CPROVER_assigns(CS_FRAME) CS_POST \
   __CPROVER_assigns(self->mutex.depth) \
   __CPROVER_assigns(RM_LIVE: RM_N->counter, RM_N->remStamp, g_clock) \
   __CPROVER_assigns(RM_LIVE && self->head == RM_N: self->head) \
@@ -284,7 +304,7 @@ static inline void exc_maybe(void) { if (!g_exc && nondet_bool()) g_exc = 1; }
   __CPROVER_requires(g_u0 == (unsigned long long)(AP_T != NULL) && g_next_rank > 0 && rank_free(g_next_rank, self->head)) \
   __CPROVER_requires(W1(I_STAMP(gW) && INV_TIME(self) && W_INST(self, gW, AP_T, NUL, NUL) && W_INST(self, AP_T, AP_T, NUL, NUL) && rank_free(g_next_rank, gW))) \
   __CPROVER_requires(W2(INV_TIME(self) && W_INST(self, gK, AP_T, NUL, NUL) && W_INST(self, gK->next, AP_T, NUL, NUL) && W_INST(self, AP_T, gK, NUL, NUL) && rank_free(g_next_rank, gK) && rank_free(g_next_rank, gK->next))) \
-  EXC_REQ __CPROVER_assigns(EXC_FRAME) \
+  EXC_REQ CS_REQ __CPROVER_assigns(EXC_FRAME) __CPROVER_assigns(CS_FRAME) CS_POST \
   __CPROVER_assigns(self->mutex.depth, self->currentCounter, g_clock, self->tail) \
   __CPROVER_assigns(AP_T == NULL: self->head) \
   __CPROVER_assigns(AP_T != NULL: AP_T->next) \
@@ -314,7 +334,7 @@ static inline void exc_maybe(void) { if (!g_exc && nondet_bool()) g_exc = 1; }
   __CPROVER_requires(g_u0 == (unsigned long long)(PP_H != NULL) && g_next_rank > 0 && rank_free(g_next_rank, self->tail)) \
   __CPROVER_requires(W1(I_STAMP(gW) && INV_TIME(self) && W_INST(self, gW, NUL, NUL, NUL) && W_INST(self, PP_H, NUL, NUL, NUL) && rank_free(g_next_rank, gW))) \
   __CPROVER_requires(W2(INV_TIME(self) && W_INST(self, gK, gK, NUL, NUL) && W_INST(self, gK->next, gK, NUL, NUL) && W_INST(self, PP_H, gK, NUL, NUL) && rank_free(g_next_rank, gK) && rank_free(g_next_rank, gK->next))) \
-  EXC_REQ __CPROVER_assigns(EXC_FRAME) \
+  EXC_REQ CS_REQ __CPROVER_assigns(EXC_FRAME) __CPROVER_assigns(CS_FRAME) CS_POST \
   __CPROVER_assigns(self->mutex.depth, self->currentCounter, g_clock, self->head) \
   __CPROVER_assigns(PP_H == NULL: self->tail) \
   __CPROVER_assigns(PP_H != NULL: PP_H->previous) \
@@ -393,7 +413,7 @@ static inline void exc_maybe(void) { if (!g_exc && nondet_bool()) g_exc = 1; }
   __CPROVER_requires(W2(INV_TIME(self) && rank_free(g_next_rank, gK) && rank_free(g_next_rank, gK->next))) \
   __CPROVER_requires(W2(IN_LIVE ? (W_INST(self, gK, IN_P, gK, NUL) && W_INST(self, gK->next, IN_P, gK, NUL) && W_INST(self, IN_B, IN_P, gK, NUL) && W_INST(self, IN_P, IN_P, gK, NUL)) \
                                 : (W_INST(self, gK, self->tail, NUL, NUL) && W_INST(self, gK->next, self->tail, NUL, NUL) && W_INST(self, self->tail, gK, NUL, NUL)))) \
-  EXC_REQ __CPROVER_assigns(EXC_FRAME) \
+  EXC_REQ CS_REQ __CPROVER_assigns(EXC_FRAME) __CPROVER_assigns(CS_FRAME) CS_POST \
   __CPROVER_assigns(self->mutex.depth, self->currentCounter, g_clock) \
   __CPROVER_assigns(IN_LIVE: IN_B->previous) \
   __CPROVER_assigns(IN_LIVE && self->head == IN_B: self->head) \
